@@ -457,3 +457,27 @@ func cleanupScore(f *ssa.Function) int {
 	}
 	return len(seen)
 }
+
+
+// roleFuncs: the functions that rules identify by role; they stay opaque calls when a role function's graph is inlined.
+func (lc *lifecycle) roleFuncs(p *Program) map[*ssa.Function]bool {
+	m := map[*ssa.Function]bool{}
+	for _, f := range []*ssa.Function{lc.HandleEnvelop, lc.OnKilledFn, lc.DoKill, lc.OnKill, lc.OnRestart, lc.MarkKilled, lc.Cleanup, lc.SchedCleanup, lc.HandleRestart,
+		lc.ChildDeath, lc.PrepareSelf, lc.ExecBehavior, lc.RemoveRegistry, lc.AppendRegistry, lc.ExecRecover, lc.Failed, p.tellFunc()} {
+		if f != nil {
+			m[f] = true
+		}
+	}
+	for _, name := range []string{"Kill", "Tell", "TellSelf", "Ask", "ActorOf", "Watch", "Unwatch", "Reply"} {
+		if f := p.methodNamed(lc.Ctx, name); f != nil {
+			m[f] = true
+		}
+	}
+	// constructors of the context
+	for _, fn := range p.Mod {
+		if res := fn.Signature.Results(); res.Len() == 2 && namedOf(res.At(0).Type()) == lc.Ctx && fn.Parent() == nil {
+			m[fn] = true
+		}
+	}
+	return m
+}
